@@ -36,7 +36,7 @@ def h_dt(defs, main, N, mode, style='sub'):
             for v in vs:
                 res += dt.eq_list(A, 'var-%s' % v, list(sm.get_value(v)), w[v])
             for n, f in names:
-                ref = dt.make_spec('offline', 'out = ' + text(f), sorted(variables(f)))
+                ref = dt.make_spec('offline~', 'out = ' + text(f), sorted(variables(f)))
                 want = [p[1] for p in dt.offline(ref, {v: w[v] for v in variables(f)}, N)]
                 got = sm.get_value(n)
                 env.observe(n, list(got))
